@@ -362,7 +362,8 @@ SPEC = {
              'add_outputs both ways and result_labels given / None. Oracle: Python integers decoded row by row from the '
              'reference tables on all 2^n rows; output-marking predicate (unchanged without add_outputs, exactly the result '
              'labels added with it), host discipline (old gates structurally / functionally unchanged). Non-trivial: '
-             'width >= 2 and, for add_* forms, >=1 internal operand gate.'),
+             'width >= 2 and, for add_* forms, >=1 internal operand gate.'
+             ' Added during the build: equality on 49-80 bit numbers against constants at the top of the range, 33-70 bit host operands, live lists as operands, generators asked twice, predicted labels, refused preludes.'),
     'assumptions': ['reference tables from vlib/refsem.py'],
     'subs': [Sub('arith', cases, arith.with_refused_prelude(arith.with_label_collisions(check_arith)), {'quick': 3200, 'thorough': 125000}),
              # the option product kind x live list x add_outputs x endianness x given labels is small; give it its own budget
